@@ -57,6 +57,7 @@ def main():
   # every (weight mode, input mode) combination of the multiplier table is represented (the accumulator class depends on it)
   allpairs = [(a, b) for a in range(len(ops)) for b in range(len(ops))]
   chosen = vlib.stratified(allpairs, lambda ab: (ops[ab[0]][2].mode, ops[ab[1]][2].mode), npairs, rng, per=2)
+  alive = []
   idx = [a * len(ops) + b for a, b in chosen]
   for t in idx:
     wd, _, w = ops[t // len(ops)]
@@ -68,6 +69,7 @@ def main():
         try:
           acc = af.make_accumulator(sh, m, use_bias=ub)
           got = QK.render(acc.output)
+          alive.append((f"acc[{wd} x {xd}, shape={sh}, bias={ub}]", acc, got))
         except Exception as e:  # pylint: disable=broad-except
           got = ["raise", type(e).__name__]
         items.append((f"acc[{wd} x {xd}, shape={sh}, bias={ub}]", got))
@@ -82,7 +84,9 @@ def main():
   for ad, _, a in ops:
     for bd, _, b in ops:
       try:
-        got = QK.render(ia.make_quantizer(a, b).output)
+        ad_ = ia.make_quantizer(a, b)
+        got = QK.render(ad_.output)
+        alive.append((f"add[{ad} + {bd}]", ad_, got))
       except Exception as e:  # pylint: disable=broad-except
         got = ["raise", type(e).__name__]
       items.append((f"add[{ad} + {bd}]", got))
@@ -106,6 +110,14 @@ def main():
         got = ["raise", type(e).__name__]
       items.append((f"{lt}{'(regenerated)' if fn.startswith('gen_') else ''}[{', '.join(d for d, _, _ in sel)}]", got))
       texts.append(f"render ({fn} {lit})")
+  # histories: the operators made above by ONE factory each are still alive; what each reports now must be what it reported when made
+  n_late = 0
+  for d_, o_, got_ in alive:
+    if QK.render(o_.output) != got_:
+      n_late += 1
+      rep.violation(f"type-changed-after-later-calls-{d_}", f"{d_} reported {got_} when it was made and reports {QK.render(o_.output)} after later calls on the same factory",
+                    {"case": d_})
+  rep.note(operators_reread_after_all_calls=len(alive), changed=n_late)
   SH = 1500
   shards = [(f"{PROP}_a_{s // SH:03d}", QK.HEADER + ("" if errs else "From QVGen Require Import QToolsOps MergeGen.\n") + "".join(f"Eval vm_compute in {t}.\n" for t in texts[s:s + SH]))
             for s in range(0, len(texts), SH)]
